@@ -252,10 +252,18 @@ def _difference_units(unit1, unit2=None):
     if unit1.base_offset == 0.0:
         return 1, unit1
 
-    if s1 == "degF":
-        return 1, delta_degF
-    elif s1 == "degC":
-        return 1, delta_degC
+    if s1 in ("degF", "degC"):
+        delta = delta_degF if s1 == "degF" else delta_degC
+        if delta.registry is not unit1.registry:
+            # keep the result in the registry of the operands
+            delta = Unit(
+                delta.expr,
+                delta.base_value,
+                delta.base_offset,
+                delta.dimensions,
+                registry=unit1.registry,
+            )
+        return 1, delta
     else:
         # This is supposed to be unreachable
         raise RuntimeError(
